@@ -89,7 +89,8 @@ impl MemoryStruct {
 
                     for (reg_range, observer) in &self.observers {
 
-                        if written_range.start >= reg_range.end || written_range.end <= reg_range.start {
+                        // The ranges overlap iff their intersection is not empty.
+                        if written_range.start.max(reg_range.start) >= written_range.end.min(reg_range.end) {
                             continue;
                         }
                         observer.update();
